@@ -14,6 +14,8 @@ import Lessm.Spec.MediaSpec
 import Lessm.Model.Mixin
 import Lessm.Model.AtRule
 import Lessm.Model.Str
+import Lessm.Model.Print
+import Lessm.Model.Lex
 
 open Lessm
 
@@ -372,6 +374,60 @@ def run (payload : String) : String :=
               ("rest", Json.str (String.ofList rest)), ("eval", ev)]).compress
 end StrIO
 
+namespace PrintIO
+open Lean Lessm.Print
+
+def selPiece (j : Json) : Except String SelPiece := do
+  let a ← j.getArr?
+  let k ← (a[0]!).getStr?
+  let s ← (a[1]!).getStr?
+  pure (if k == "c" then .comb s else .text s)
+
+def valPiece (j : Json) : Except String ValPiece := do
+  match j.getStr? with
+  | .ok "sp" => pure .sp
+  | .ok "comma" => pure .comma
+  | .ok s => pure (.tok s)
+  | .error _ =>
+      let a ← j.getArr?
+      pure (.tok (← (a[1]!).getStr?))
+
+def decl (j : Json) : Except String Decl := do
+  let a ← j.getArr?
+  let p ← (a[0]!).getStr?
+  let v ← (← (a[1]!).getArr?).toList.mapM valPiece
+  let i ← (a[2]!).getBool?
+  pure ⟨p, v, i⟩
+
+partial def node (j : Json) : Except String Node := do
+  match j.getObjValAs? String "stmt" with
+  | .ok t => pure (.stmt t)
+  | .error _ =>
+    match j.getObjValAs? String "nest" with
+    | .ok p =>
+        let b ← (← (← j.getObjVal? "b").getArr?).toList.mapM node
+        pure (.nest p b)
+    | .error _ =>
+        let sels ← (← (← j.getObjVal? "rule").getArr?).toList.mapM (fun s => do (← s.getArr?).toList.mapM selPiece)
+        let ds ← (← (← j.getObjVal? "decls").getArr?).toList.mapM decl
+        pure (.rule sels ds)
+
+def esc (s : String) : String := (s.replace "\\" "\\\\").replace "\n" "\\n" |>.replace "\t" "\\t"
+
+def run (payload : String) : String :=
+  match Json.parse payload with
+  | .error e => "bad-json " ++ e
+  | .ok j =>
+    match (do
+      let sheet ← (← (← j.getObjVal? "sheet").getArr?).toList.mapM node
+      let vs ← (← (← j.getObjVal? "opts").getArr?).toList.mapM (fun o => do
+        let a ← o.getArr?
+        pure (⟨← (a[0]!).getBool?, ← (a[1]!).getBool?, ← (a[2]!).getBool?, ← (a[3]!).getNat?⟩ : Opts))
+      pure (sheet, vs) : Except String (List Node × List Opts)) with
+    | .error e => "bad-item " ++ e
+    | .ok (sheet, vs) => (Json.arr (vs.toArray.map (fun o => Json.str (format o sheet)))).compress
+end PrintIO
+
 def handle (op : String) (payload : String) : String :=
   let args := (payload.splitOn " ").filter (· ≠ "")
   match op, args with
@@ -387,6 +443,7 @@ def handle (op : String) (payload : String) : String :=
           | some (v, u) => Num.ratStr v ++ " " ++ String.ofList u
           | none => "none"
       | none => "bad-op"
+  | "c12.filter", ws => String.intercalate " " (Lex.filter Gen.significantWs ws)
   | "c09.fn", ws => colorFn ws
   | "c04.eval", ws =>
       match Expr.evalText ws with
@@ -403,6 +460,7 @@ def handle (op : String) (payload : String) : String :=
     | "c05.run", [j] => MixinIO.run j
     | "c19.run", [j] => AtIO.run j
     | "c18.scan", [j] => StrIO.run j
+    | "c11.fmt", [j] => PrintIO.run j
     | "c17.unknown", name :: rest => Builtins.callUnknown name rest
     | "c06.guard", [g] =>
         match parseGuard g with
